@@ -27,12 +27,18 @@ abbrev Store (κ α : Type) := List (Nat × Data κ α)
 namespace Store
 variable {κ α : Type}
 
-def get? (s : Store κ α) (i : Nat) : Option (Data κ α) := (s.find? (·.1 == i)).map (·.2)
+def get? : Store κ α → Nat → Option (Data κ α)
+  | [], _ => none
+  | (k, d) :: s, i => if k = i then some d else get? s i
 
-def set (s : Store κ α) (i : Nat) (d : Data κ α) : Store κ α :=
-  if s.any (·.1 == i) then s.map (fun p => if p.1 == i then (i, d) else p) else s ++ [(i, d)]
+/-- overwrite in place, or append a new entry (Python dict semantics) -/
+def set : Store κ α → Nat → Data κ α → Store κ α
+  | [], i, d => [(i, d)]
+  | (k, e) :: s, i, d => if k = i then (i, d) :: s else (k, e) :: set s i d
 
-def del (s : Store κ α) (i : Nat) : Store κ α := s.filter (·.1 != i)
+def del : Store κ α → Nat → Store κ α
+  | [], _ => []
+  | (k, e) :: s, i => if k = i then del s i else (k, e) :: del s i
 
 end Store
 
